@@ -20,7 +20,7 @@ MANIFEST = {
             'z3. Sockets, pacing and DTLS are not involved (generator and receive function are called at their boundary).',
     'ref': '5 C13'}
 BOUNDS = {'quick': dict(segments='<= 3 (more are cut)', receiver='all permutations, one duplicate, second transfer (other id | other address | other port of the same address), packing'),
-          'thorough': dict(segments='<= 4', receiver='as quick')}
+          'thorough': dict(segments='<= 4 and <= 5', receiver='all permutations of <= 4 segments; duplicates and a second transfer also with 3 segments in 3 orders')}
 ASSUMPTIONS = [
     'each segment is received at least once; datagrams are not corrupted',
     'portion stand-in semantics (closedopen over integers, adjacency merging)',
@@ -32,9 +32,15 @@ MAX_PATHS = {'quick': 20000, 'thorough': 100000}
 
 def cases(tier):
     out = [dict(kind='send', k=3 if tier == 'quick' else 4)]
-    for n in (2, 3):
+    if tier != 'quick':
+        out.append(dict(kind='send', k=5))
+    for n in ((2, 3) if tier == 'quick' else (2, 3, 4)):
         for perm in itertools.permutations(range(n)):
             out.append(dict(kind='recv', n=n, order=''.join(map(str, perm)), extra='none'))
+    if tier != 'quick':
+        for order in ('012', '120', '201'):
+            for extra in ('dup', 'dup-late', 'other-id', 'other-peer', 'other-port'):
+                out.append(dict(kind='recv', n=3, order=order, extra=extra))
     out.append(dict(kind='recv', n=2, order='01', extra='dup'))
     out.append(dict(kind='recv', n=2, order='10', extra='dup-late'))
     out.append(dict(kind='recv', n=2, order='01', extra='other-id'))
